@@ -1031,14 +1031,18 @@ func flowsInto(c *Ctx, fn *ssa.Function, dst, src ssa.Value, d int) bool {
 // constructor handed over is the New of the package the suite's own name ends in.
 func ruleCBCMacHashMatchesSuite(c *Ctx, r *Report) {
 	const rule = "cbc-mac-hash-matches-suite"
-	n := 0
+	n := 0 // suites that build a CBC record cipher (one call per role, or one for both)
+	perFn := map[*ssa.Function]int{}
 	for _, s := range c.CallsTo(nameHasSuffix("pkg/crypto/ciphersuite.NewCBC")) {
 		call, ok := s.Call.(*ssa.Call)
 		fn := s.Fn
 		if !ok || fn.Signature.Recv() == nil || len(call.Call.Args) == 0 {
 			continue
 		}
-		n++
+		perFn[fn]++
+		if perFn[fn] == 1 {
+			n++
+		}
 		r.Sites++
 		// the suite's name: the constant its String method returns
 		recvT := derefType(fn.Signature.Recv().Type())
@@ -1065,7 +1069,7 @@ func ruleCBCMacHashMatchesSuite(c *Ctx, r *Report) {
 		case strings.HasSuffix(name, "_CBC_SHA384"):
 			want = "crypto/sha512.New384"
 		}
-		key := fmt.Sprintf("%s:mac#%d", short(fn), n)
+		key := fmt.Sprintf("%s:mac#%d", short(fn), perFn[fn])
 		if want == "" {
 			r.Unk(rule, key, c.ipos(call), "the suite's name ("+name+") does not say which MAC it uses")
 			continue
@@ -1076,7 +1080,7 @@ func ruleCBCMacHashMatchesSuite(c *Ctx, r *Report) {
 		}
 		r.Check(got == want, rule, key, c.ipos(call), name+" MACs with "+want, "the record MAC of "+name+" is built with "+got+" instead of "+want+": the tag has another length and value than RFC 5246 prescribes for this suite, so no conforming peer can read or write its records (both ends of this library still agree)")
 	}
-	r.Floor(rule, n, 4)
+	r.Floor(rule, n, 3)
 }
 
 // ruleListenerBufferFitsConn (C08): "cannot wedge": the listener reads datagrams into a buffer of
@@ -1220,6 +1224,54 @@ func ruleCBCAcceptsEmptyRecord(c *Ctx, r *Report) {
 		}
 	}
 	if matched == 0 {
+		// the length may be computed and judged in a helper that hands it back: the values the
+		// helper returns for a bound of this function are bounds too, and the exploration starts
+		// at the call, with the helper followed
+		for bound := range cut {
+			ex, isEx := bound.(*ssa.Extract)
+			if !isEx {
+				continue
+			}
+			hc, isCall := ex.Tuple.(*ssa.Call)
+			if !isCall {
+				continue
+			}
+			g := hc.Call.StaticCallee()
+			if g == nil || g.Pkg != fn.Pkg || len(g.Blocks) == 0 {
+				continue
+			}
+			inner := 0
+			for _, gb := range g.Blocks {
+				if gret, isRet := gb.Instrs[len(gb.Instrs)-1].(*ssa.Return); isRet && ex.Index < len(gret.Results) {
+					cut[unspill(gret.Results[ex.Index])] = true
+				}
+			}
+			for _, gb := range g.Blocks {
+				for _, in := range gb.Instrs {
+					if bo, isBo := in.(*ssa.BinOp); isBo {
+						if _, is := atZero(bo); is {
+							inner++
+						}
+					}
+				}
+			}
+			if inner == 0 {
+				continue
+			}
+			matched += inner
+			w := (&Walk{Fn: fn, Follow: followSamePkg(fn), Assume: atZero}).At(hc)
+			reach := false
+			for _, ro := range w.Returns {
+				if n := len(ro.Ret.Results); n == 2 && isNilConst(unspill(ro.Ret.Results[1])) && !isNilConst(unspill(ro.Ret.Results[0])) {
+					reach = true
+				}
+			}
+			if !reach {
+				okRet = false
+			}
+		}
+	}
+	if matched == 0 {
 		r.Unk(rule, short(fn), c.pos(fn.Pos()), "no comparison of the data length (the bound the body is cut at) with zero was found")
 		return
 	}
@@ -1319,8 +1371,33 @@ func ruleSharedSecretsNotWipedInPlace(c *Ctx, r *Report) {
 func ruleAckNamesTheRecord(c *Ctx, r *Report) {
 	const rule = "ack-names-the-record"
 	n := 0
+	// the functions that name the number: where the list is stored to, or - when the storing
+	// function is handed the number - where that function is called
+	var hosts []*ssa.Function
+	seenHost := map[*ssa.Function]bool{}
+	var addHost func(fn *ssa.Function, d int)
+	addHost = func(fn *ssa.Function, d int) {
+		if seenHost[fn] {
+			return
+		}
+		seenHost[fn] = true
+		hosts = append(hosts, fn)
+		takes := false
+		for _, p := range fn.Params {
+			if namedOf(derefType(p.Type())) == "pkg/protocol.RecordNumber" {
+				takes = true
+			}
+		}
+		if sites, closed := c.staticCallers(fn); takes && closed && d < 2 {
+			for _, cs := range sites {
+				addHost(cs.Fn, d+1)
+			}
+		}
+	}
 	for _, st := range c.StoresTo("dtls.Conn", "pendingACKs") {
-		fn := st.Fn
+		addHost(st.Fn, 0)
+	}
+	for _, fn := range hosts {
 		for _, al := range allocsOf(fn, "pkg/protocol.RecordNumber") {
 			f := litFields(al)
 			ev, sv := f["Epoch"], f["SequenceNumber"]
